@@ -230,11 +230,26 @@ def check_result(ctx, res, log, case):
     # resolver exceptions must surface as located errors (unless swallowed under an already nulled ancestor)
     errs = res.errors or []
     by_orig = {id(e.original_error): e for e in errs if e.original_error is not None}
+    # where each reported error really happened: its path, or - for an error object a resolver handed over with a
+    # path of its own (passed through unchanged) - the path of the resolver that raised it
+    happened = [list(x.path) for x in errs if x.path is not None]
+    happened += [p for p, exc, _ in log if any(x is exc for x in errs)]
     for path, exc, how in log:
         e = by_orig.get(id(exc)) or next((x for x in errs if x is exc), None)
         if e is None:
             # legitimate only if an ancestor position (or this one) was already nulled by another error
-            if not any(x.path is not None and (list(x.path) == path[:len(x.path)] or path == list(x.path)[:len(path)]) for x in errs) and res.data is not None:
+            # (an error elsewhere may have propagated to a common ancestor): then the position is not in the data at all
+            cur, gone = res.data, False
+            for key in path[:-1]:
+                try:
+                    cur = cur[key]
+                except (KeyError, IndexError, TypeError):
+                    gone = True
+                    break
+                if cur is None:
+                    gone = True
+                    break
+            if not gone and not any(hp == path[:len(hp)] or path == hp[:len(path)] for hp in happened) and res.data is not None:
                 return bad("resolver-exception-lost", {"path": path, "exception": repr(exc)[:100]})
             continue
         ctx.count("resolver_exceptions_surfaced")
